@@ -503,6 +503,12 @@ func (w *World) boundsDiscipline(P string, f *Facts, r *Roles) {
 					if _, isAlloc := base.(*ssa.Alloc); isAlloc {
 						continue
 					}
+					// a slice made with a constant length that covers the index
+					if mk, isMake := stripConv(base).(*ssa.MakeSlice); isMake {
+						if n, isK := constInt(mk.Len); isK && n > k {
+							continue
+						}
+					}
 					n++
 					need := k + 1
 					if kind == "slice" {
@@ -873,6 +879,12 @@ func leLen(v, base ssa.Value, b *ssa.BasicBlock, inProgress map[ssa.Value]bool, 
 	v = stripConv(v)
 	if k, ok := constInt(v); ok {
 		return k == 0 || lenAtLeast(b, base, k)
+	}
+	// g(base) where g returns at most the length of its argument (the length of a scanned prefix)
+	if c, ok := v.(*ssa.Call); ok {
+		if g := staticCallee(c); g != nil && inRepo(g) && len(g.Params) == 1 && len(c.Call.Args) == 1 && stripConv(c.Call.Args[0]) == stripConv(base) && returnsLeLenOfParam(g) {
+			return true
+		}
 	}
 	// len(a) <= len(base) when base was made with a length that is len(a) plus lengths / non-negative constants
 	if c, ok := v.(*ssa.Call); ok && isLenOf(c, nil) {
